@@ -28,7 +28,7 @@ CFG = dict(
         "GR/LLGR events follow daemon/src/gr.rs GrState (mirrored in the harness); restale_llgr is followed by "
         "drop_no_llgr; nexthop_invalid of an insert = membership of its next hop in the unreachable set; "
         "PrefixLimitExceeded is followed by the peer-down sequence; start_deferral only on an empty family",
-        "path identity = (peer address, attribute content, next hop) for the best-only consumer, "
+        "path identity = (peer address, attribute content, FULL next hop: variant + global + link-local address) for the best-only consumer, "
         "+ local_path_id for add-path consumers; a difference in the session Arc alone, or in the "
         "LLGR-stale flag of an unchanged best, is counted (unjudged:*) and not judged",
         "views of a family are not judged while that family is in deferral (notifications other mutators "
@@ -60,6 +60,15 @@ CFG = dict(
             "deferral:held-prefix-checked": 200,
             "id:notification-checked": 12000, "id:injectivity-checked": 37000,
             "phantom:path-checked": 9500, "views-compared": 30000,
+            # IPv6 global + link-local next hops: replacements by the same session that keep the attribute
+            # content and the global address and change only the link-local half / only the variant
+            "insert:nexthop-global+link-local": 6000,
+            "replace:nexthop-link-local-only": 250,
+            "replace:nexthop-link-local-only:same-arc": 140,
+            "replace:nexthop-link-local-only:same-arc:of-best-path": 60,
+            "replace:nexthop-link-local-only:equal-content-new-arc": 110,
+            "replace:nexthop-variant-only": 400,
+            "replace:nexthop-variant-only:same-arc:of-best-path": 90,
             # allocator shape (part=alloc): ids must leave the first 64-bit bitmap word, whole
             # 64-id blocks must be released below a block that is still in use, and ids re-issued
             "alloc-histories": 40,
